@@ -15,7 +15,7 @@ RULE = ("registries drawn from all signatures {Value,Logical,Nodes}^n -> type, n
         "all 120 signatures) plus the built-ins and unknown names; grammatical expression trees that place calls, literals, singular and "
         "non-singular queries in every position (test, comparison operand, nested argument, under '!', inside &&/||, inside parentheses, "
         "argument written bare vs parenthesised) WITHOUT regard to types, so about half are ill-typed; environments with configured "
-        "min/max_int_index (default, small, asymmetric) and integers at bound-1/bound/bound+1 in index, slice and embedded positions. "
+        "min/max_int_index (default, small, asymmetric) and integers at bound-1/bound/bound+1 in index, slice and embedded positions. Half of the environments also set an option unrelated to validity (max_recursion_depth 1 or 2, nondeterministic); one case in eight is compiled again on the same environment instance after a function was re-registered under the same name with another signature or the index range was changed, and the verdict must follow the new configuration. "
         "Refuted when compile() succeeds <=/=> (well-typed per RFC 9535 2.4.3 and all integers in range), when the error is not a "
         "JSONPathError, or when a registered probe function is called during compile(). Non-trivial: ill-typed/out-of-range, or "
         "well-typed with call nesting >= 2; distinct by (registry, AST, bounds). ledger = (parameter type x argument form) and "
@@ -247,13 +247,17 @@ def run_shard(spec, rec):
         sigs = dict(BUILTIN_SIGS)
         sigs.update(user)
         how = R.choice(["class", "class", "instance"])
+        # options that have nothing to do with validity must not influence it
+        oi = R.choice([0, 0, 0, 1, 2, 3])
+        how = how + ("", "+max_recursion_depth=1", "+max_recursion_depth=2", "+nondeterministic")[oi]
         if (ri, b, how) not in envs:
             attrs = {} if b is None else {"min_int_index": b[0], "max_int_index": b[1]}
-            if how == "class" or b is None:
+            attrs.update(({}, {"max_recursion_depth": 1}, {"max_recursion_depth": 2}, {"nondeterministic": True})[oi])
+            if how.startswith("class") or b is None:
                 envs[(ri, b, how)] = mon.make_env({n_: (p, r, impl_for(r)) for n_, (p, r) in user.items()}, attrs=attrs)
             else:
                 # configured on the instance after construction (and after a first use with the default range)
-                e_, pr_ = mon.make_env({n_: (p, r, impl_for(r)) for n_, (p, r) in user.items()})
+                e_, pr_ = mon.make_env({n_: (p, r, impl_for(r)) for n_, (p, r) in user.items()}, attrs={k_: v_ for k_, v_ in attrs.items() if not k_.endswith("_int_index")})
                 try:
                     e_.compile("$[1, 2:3]")
                 except Exception:  # noqa: BLE001
@@ -305,7 +309,52 @@ def run_shard(spec, rec):
                 rec.violation("rejects-valid:" + type(o[1]).__name__ + ":" + reason_class(mon.describe_outcome(o)), wit)
             else:
                 rec.violation("accepts-invalid:" + reason_class(why_t or why_r), wit)
+        elif R.random() < 0.12:
+            v = reconfigure_case(rec, R, text, q, user, registries, b, bounds_choices)
+            if v:
+                rec.violation(v[0], v[1])
     rec.extra["ledger"] = cells
+
+
+def reconfigure_case(rec, R, text, q, user, registries, b, bounds_choices):
+    """The same text compiled again on the SAME environment instance after its configuration changed (a function re-registered
+    under the same name with another signature, or the index range changed): the verdict must follow the new configuration."""
+    env, probes = mon.make_env({n_: (p, r, impl_for(r)) for n_, (p, r) in user.items()})
+    if b:
+        env.min_int_index, env.max_int_index = b
+    o1 = mon.observe(env.compile, text)
+    steps = [{"configuration": "initial", "bounds": list(b) if b else None, "compile": mon.describe_outcome(o1)[:80]}]
+    sigs = dict(BUILTIN_SIGS)
+    sigs.update(user)
+    lo, hi = b if b else (-(2**53) + 1, 2**53 - 1)
+    for step in range(2):
+        used = [n_ for n_ in user if n_ + "(" in text.replace(" ", "").replace("\n", "").replace("\t", "").replace("\r", "")] or list(user)
+        if R.random() < 0.6 and used:
+            n_ = R.choice(used)
+            other = R.choice(registries)
+            params, ret = R.choice(list(other.values()))
+            env.function_extensions[n_] = mon.Probe(n_, params, ret, impl_for(ret))
+            sigs[n_] = (params, ret)
+            steps.append({"configuration": "re-registered %s as (%s)->%s" % (n_, ",".join(params), ret)})
+            rec.feat("reconfigure:function")
+        else:
+            nb = R.choice([x for x in bounds_choices if x])
+            env.min_int_index, env.max_int_index = nb
+            lo, hi = nb
+            steps.append({"configuration": "index range set to [%d, %d]" % nb})
+            rec.feat("reconfigure:bounds")
+        wt, why_t = T.well_typed(q, sigs)
+        rng, why_r = T.in_range(q, lo, hi)
+        want = wt and rng
+        o = mon.observe(env.compile, text)
+        rec.monitor("M-compile")
+        steps[-1]["compile"] = mon.describe_outcome(o)[:80]
+        steps[-1]["expected_valid"] = want
+        if o[0] == "exc":
+            return ("reconfigured-environment:raises-" + type(o[1]).__name__, {"query": text, "steps": steps})
+        if (o[0] == "ok") != want:
+            return ("reconfigured-environment:" + ("rejects-valid" if want else "accepts-invalid"), {"query": text, "steps": steps, "why_invalid": why_t or why_r})
+    return None
 
 
 def reason_class(s):
